@@ -798,7 +798,9 @@ def formula_grammar(table):
     mixture_by_volume = by_volume.setParseAction(convert_by_volume)
 
     mixture_by_layer = Forward()
-    layer_thick = Group(count + Regex(LENGTH_RE) + space)
+    # Note: the number in front of the unit is required ("LI" is not 1 L of I)
+    quantity = fract|whole
+    layer_thick = Group(quantity + Regex(LENGTH_RE) + space)
     layer_part = (layer_thick + mixture) | (opengrp + mixture_by_layer + closegrp +count)
     mixture_by_layer << layer_part + ZeroOrMore(partsep + layer_part)
     def convert_by_layer(string, location, tokens):
@@ -824,7 +826,7 @@ def formula_grammar(table):
     mixture_by_layer = mixture_by_layer.setParseAction(convert_by_layer)
 
     mixture_by_absmass = Forward()
-    absmass_mass = Group(count + Regex(MASS_VOLUME_RE) + space)
+    absmass_mass = Group(quantity + Regex(MASS_VOLUME_RE) + space)
     absmass_part = (absmass_mass + mixture) | (opengrp + mixture_by_absmass + closegrp + count)
     mixture_by_absmass << absmass_part + ZeroOrMore(partsep + absmass_part)
     def convert_by_absmass(string, location, tokens):
